@@ -157,7 +157,8 @@ impl<'r> Gen<'r> {
         self.rng.below(self.cfg.nsym as u64) as u8
     }
     fn symset(&mut self) -> Vec<u8> {
-        let n = self.rng.range(1, (self.cfg.nsym as u64).min(4));
+        // mostly small sets; now and then one that covers most of the alphabet (duplicates included)
+        let n = if self.rng.chance(1, 6) { self.rng.range(self.cfg.nsym as u64 / 2, self.cfg.nsym as u64 + 4) } else { self.rng.range(1, (self.cfg.nsym as u64).min(4)) };
         let mut v: Vec<u8> = (0..n).map(|_| self.sym()).collect();
         v.sort();
         v.dedup();
